@@ -738,7 +738,6 @@ pub fn gen_san_script(rng: &mut Rng) -> Script {
                 },
                 flag: 0,
             });
-            ud += 1;
             acts.push(RAct::Submit { ring: 0 });
             acts.push(RAct::Advance { ns: lmax + 1 });
             acts.push(RAct::Drain { ring: 0, max: None });
